@@ -1338,3 +1338,382 @@ func ruleBytesAs(prog *Program, rep *Report) {
 		rep.Errorf("K-bytes examined %d reflective slice writers (floor 4): anchors did not resolve", n)
 	}
 }
+
+// ---------------------------------------------------------------- B-idxle
+
+// matchIndexLE: an index is admitted by `i <= LEN` (or `LEN >= i`) and then used
+// to index the same container: the valid indexes end at LEN-1.
+func matchIndexLE(files []*ast.File, info *types.Info) (sites []synSite, examined int) {
+	// LEN expressions: len(X), X.Len(), X.Size(), or a local assigned from one of those (then X is remembered)
+	lenOf := func(e ast.Expr, defs map[types.Object]string) string {
+		switch x := ast.Unparen(e).(type) {
+		case *ast.CallExpr:
+			if id, ok := x.Fun.(*ast.Ident); ok && id.Name == "len" && len(x.Args) == 1 {
+				return types.ExprString(x.Args[0])
+			}
+			if sel, ok := x.Fun.(*ast.SelectorExpr); ok && len(x.Args) == 0 && (sel.Sel.Name == "Len" || sel.Sel.Name == "Size") {
+				return types.ExprString(sel.X)
+			}
+		case *ast.Ident:
+			if o := info.Uses[x]; o != nil {
+				return defs[o]
+			}
+		}
+		return ""
+	}
+	for _, f := range files {
+		for _, d := range f.Decls {
+			fd, ok := d.(*ast.FuncDecl)
+			if !ok || fd.Body == nil {
+				continue
+			}
+			defs := map[types.Object]string{}
+			ast.Inspect(fd.Body, func(n ast.Node) bool {
+				as, ok := n.(*ast.AssignStmt)
+				if !ok || len(as.Lhs) != 1 || len(as.Rhs) != 1 {
+					return true
+				}
+				if id, ok := as.Lhs[0].(*ast.Ident); ok {
+					if c := lenOf(as.Rhs[0], map[types.Object]string{}); c != "" {
+						o := info.Defs[id]
+						if o == nil {
+							o = info.Uses[id]
+						}
+						if o != nil {
+							defs[o] = c
+						}
+					}
+				}
+				return true
+			})
+			ast.Inspect(fd.Body, func(n ast.Node) bool {
+				ifs, ok := n.(*ast.IfStmt)
+				if !ok {
+					return true
+				}
+				var walk func(e ast.Expr)
+				walk = func(e ast.Expr) {
+					be, ok := ast.Unparen(e).(*ast.BinaryExpr)
+					if !ok {
+						return
+					}
+					if be.Op == token.LAND {
+						walk(be.X)
+						walk(be.Y)
+						return
+					}
+					var idx ast.Expr
+					cont := ""
+					switch be.Op {
+					case token.LEQ: // i <= LEN
+						cont, idx = lenOf(be.Y, defs), be.X
+					case token.GEQ: // LEN >= i
+						cont, idx = lenOf(be.X, defs), be.Y
+					case token.LSS, token.GTR:
+						if lenOf(be.Y, defs) != "" || lenOf(be.X, defs) != "" {
+							examined++
+						}
+						return
+					default:
+						return
+					}
+					if cont == "" {
+						return
+					}
+					examined++
+					is := types.ExprString(idx)
+					// the body indexes cont with idx
+					used := false
+					ast.Inspect(ifs.Body, func(k ast.Node) bool {
+						switch x := k.(type) {
+						case *ast.IndexExpr:
+							if types.ExprString(x.X) == cont && types.ExprString(x.Index) == is {
+								used = true
+							}
+						case *ast.CallExpr:
+							if sel, ok := x.Fun.(*ast.SelectorExpr); ok && len(x.Args) >= 1 && types.ExprString(sel.X) == cont && types.ExprString(x.Args[0]) == is {
+								switch sel.Sel.Name {
+								case "Index", "ValueAtIndex", "SetValueAtIndex":
+									used = true
+								}
+							}
+						}
+						return true
+					})
+					if used {
+						sites = append(sites, synSite{pos: be.Pos(), file: f, key: enclosingFuncName(f, be.Pos()) + ":index-le:" + is,
+							msg: fmt.Sprintf("%s is admitted by %s and then used to index %s: the last valid index is one less than the length (index == length panics or writes past the end)", is, types.ExprString(be), cont)})
+					}
+				}
+				walk(ifs.Cond)
+				return true
+			})
+		}
+	}
+	return
+}
+
+const fixtureIndexLE = `package fixture
+
+import "reflect"
+
+func setNth(rv reflect.Value, i int, v reflect.Value) {
+	size := rv.Len()
+	if i < 0 {
+		i = size + i
+	}
+	if 0 <= i && i <= size {
+		rv.Index(i).Set(v)
+	}
+}
+
+func fine(a []int, i int) int {
+	if 0 <= i && i < len(a) {
+		return a[i]
+	}
+	return 0
+}
+`
+
+func ruleIndexLE(prog *Program, rep *Report, rels ...string) {
+	rep.Rules = append(rep.Rules, "B-idxle: no index that was admitted by `i <= length` (length = len(C), C.Len(), C.Size() or a local holding one of them) is used to index C in the guarded block")
+	runSynRule(prog, rep, "B-idxle", rels, matchIndexLE, fixtureIndexLE, 1, 20)
+}
+
+// ---------------------------------------------------------------- K-unsafefile
+
+// ruleUnsafeFile: the field accessors live in one file per Go type (fint8.go,
+// fuint16.go, ...); every load through unsafe.Pointer in such a file must use the
+// file's type. A load through another type reads the right bytes as the wrong
+// number (uint16 50051 as int16 -15485).
+func ruleUnsafeFile(prog *Program, rep *Report) {
+	rep.Rules = append(rep.Rules, "K-unsafefile: in each per-type accessor file (f<type>.go of oj, sen, alt) every load *(*T)(unsafe.Pointer(..)) uses one and the same T: the address fast path reads the field as the type the file is for")
+	files := 0
+	for _, rel := range []string{"oj", "sen", "alt"} {
+		pk := prog.Pkg(rel)
+		if pk == nil {
+			continue
+		}
+		for _, f := range pk.Syntax {
+			name := prog.Fset.Position(f.Pos()).Filename
+			base := name[strings.LastIndex(name, "/")+1:]
+			if !strings.HasPrefix(base, "f") || !strings.HasSuffix(base, ".go") || base == "finfo.go" || strings.HasSuffix(base, "_test.go") {
+				continue
+			}
+			typesSeen := map[string]token.Pos{}
+			counts := map[string]int{}
+			ast.Inspect(f, func(n ast.Node) bool {
+				st, ok := n.(*ast.StarExpr)
+				if !ok {
+					return true
+				}
+				c, ok := ast.Unparen(st.X).(*ast.CallExpr)
+				if !ok || len(c.Args) != 1 {
+					return true
+				}
+				pt, ok := ast.Unparen(c.Fun).(*ast.StarExpr)
+				if !ok {
+					return true
+				}
+				inner, ok := ast.Unparen(c.Args[0]).(*ast.CallExpr)
+				if !ok {
+					return true
+				}
+				if types.ExprString(inner.Fun) != "unsafe.Pointer" {
+					return true
+				}
+				t := types.ExprString(pt.X)
+				if _, ok := typesSeen[t]; !ok {
+					typesSeen[t] = st.Pos()
+				}
+				counts[t]++
+				return true
+			})
+			if len(typesSeen) == 0 {
+				continue
+			}
+			files++
+			key := rel + "/" + base
+			if len(typesSeen) == 1 {
+				for t := range typesSeen {
+					rep.Discharge("K-unsafefile", key, prog.Pos(f.Pos()), "all unsafe loads are *(*"+t+")")
+				}
+				continue
+			}
+			var ts []string
+			for t := range typesSeen {
+				ts = append(ts, t)
+			}
+			sort.Strings(ts)
+			// the file's type: its name, else the most frequent load
+			expected := strings.TrimSuffix(strings.TrimPrefix(base, "f"), ".go")
+			if _, ok := typesSeen[expected]; !ok {
+				best := ""
+				for _, t := range ts {
+					if counts[t] > counts[best] {
+						best = t
+					}
+				}
+				expected = best
+			}
+			for _, t := range ts {
+				if t != expected {
+					rep.Violate(Finding{Rule: "K-unsafefile", Key: key + ":" + t, Pos: prog.Pos(typesSeen[t]), Msg: fmt.Sprintf("%s loads a field through *(*%s)(unsafe.Pointer(..)) while the file is for another type (loads seen: %s): the bytes of the field are read as the wrong kind of number", key, t, strings.Join(ts, ", "))})
+				}
+			}
+		}
+	}
+	rep.Eval(files)
+	if files < 20 {
+		rep.Errorf("K-unsafefile examined %d accessor files (floor 20): anchors did not resolve", files)
+	}
+}
+
+// ---------------------------------------------------------------- M-planmut
+
+// matchPlanWrite: a plan function (root, at, args...) assigns to an element of its
+// variadic argument slice: the slice belongs to the compiled plan, so executing
+// the plan changes it (a second execution, or another iteration of each, sees the
+// value computed by the first).
+func matchPlanWrite(files []*ast.File, info *types.Info) (sites []synSite, examined int) {
+	for _, f := range files {
+		for _, d := range f.Decls {
+			fd, ok := d.(*ast.FuncDecl)
+			if !ok || fd.Body == nil || fd.Type.Params == nil {
+				continue
+			}
+			var variadic types.Object
+			for _, fl := range fd.Type.Params.List {
+				if _, ok := fl.Type.(*ast.Ellipsis); ok && len(fl.Names) == 1 {
+					variadic = info.Defs[fl.Names[0]]
+				}
+			}
+			if variadic == nil {
+				continue
+			}
+			examined++
+			ast.Inspect(fd.Body, func(n ast.Node) bool {
+				as, ok := n.(*ast.AssignStmt)
+				if !ok {
+					return true
+				}
+				for _, l := range as.Lhs {
+					ix, ok := ast.Unparen(l).(*ast.IndexExpr)
+					if !ok {
+						continue
+					}
+					if id, ok := ast.Unparen(ix.X).(*ast.Ident); ok && info.Uses[id] == variadic {
+						sites = append(sites, synSite{pos: as.Pos(), file: f, key: enclosingFuncName(f, as.Pos()) + ":writes-args",
+							msg: fmt.Sprintf("%s assigns to an element of its variadic argument slice: the slice is the compiled plan's own argument list, so running the plan rewrites the plan", fd.Name.Name)})
+					}
+				}
+				return true
+			})
+		}
+	}
+	return
+}
+
+const fixturePlanWrite = `package fixture
+
+func get(root map[string]any, at any, args ...any) any {
+	if s, ok := args[0].(string); ok {
+		args[0] = len(s)
+	}
+	return args[0]
+}
+`
+
+func rulePlanWrite(prog *Program, rep *Report) {
+	rep.Rules = append(rep.Rules, "M-planmut: no function of package asm assigns to an element of its variadic argument slice (plan functions receive the plan's own argument list): executing a plan does not change the plan")
+	runSynRule(prog, rep, "M-planmut", []string{"asm"}, matchPlanWrite, fixturePlanWrite, 1, 20)
+}
+
+// ---------------------------------------------------------------- K-parsebits
+
+// matchParseFloatBits: strconv.ParseFloat(s, 32) rounds to float32 precision. It is
+// only right where the target is known to be a float32: the enclosing case clause
+// lists reflect.Float32 alone, or the result is converted with float32(...).
+func matchParseFloatBits(files []*ast.File, info *types.Info) (sites []synSite, examined int) {
+	for _, f := range files {
+		var stack []ast.Node
+		ast.Inspect(f, func(n ast.Node) bool {
+			if n == nil {
+				stack = stack[:len(stack)-1]
+				return true
+			}
+			stack = append(stack, n)
+			c, ok := n.(*ast.CallExpr)
+			if !ok || len(c.Args) != 2 {
+				return true
+			}
+			sel, ok := c.Fun.(*ast.SelectorExpr)
+			if !ok || sel.Sel.Name != "ParseFloat" {
+				return true
+			}
+			if id, ok := sel.X.(*ast.Ident); !ok {
+				return true
+			} else if pn, ok := info.Uses[id].(*types.PkgName); !ok || pn.Imported().Path() != "strconv" {
+				return true
+			}
+			examined++
+			tv, ok := info.Types[c.Args[1]]
+			if !ok || tv.Value == nil || tv.Value.String() != "32" {
+				return true
+			}
+			// justified by the enclosing case clause?
+			for i := len(stack) - 1; i >= 0; i-- {
+				cc, ok := stack[i].(*ast.CaseClause)
+				if !ok {
+					continue
+				}
+				only32 := len(cc.List) > 0
+				for _, e := range cc.List {
+					s := types.ExprString(e)
+					if !(strings.HasSuffix(s, "Float32") || s == "float32") {
+						only32 = false
+					}
+				}
+				if only32 {
+					return true
+				}
+				break
+			}
+			sites = append(sites, synSite{pos: c.Pos(), file: f, key: enclosingFuncName(f, c.Pos()) + ":parsefloat32",
+				msg: "strconv.ParseFloat(.., 32) is used where the target is not known to be a float32 (the enclosing case also covers float64): a float64 comes back with float32 precision, and large values fail with a range error"})
+			return true
+		})
+	}
+	return
+}
+
+const fixtureParseFloatBits = `package fixture
+
+import (
+	"reflect"
+	"strconv"
+)
+
+func set(rv reflect.Value, s string) {
+	switch rv.Kind() {
+	case reflect.Float32, reflect.Float64:
+		if f, err := strconv.ParseFloat(s, 32); err == nil {
+			rv.SetFloat(f)
+		}
+	}
+}
+
+func set32(rv reflect.Value, s string) {
+	switch rv.Kind() {
+	case reflect.Float32:
+		if f, err := strconv.ParseFloat(s, 32); err == nil {
+			rv.SetFloat(f)
+		}
+	}
+}
+`
+
+func ruleParseFloatBits(prog *Program, rep *Report, rels ...string) {
+	rep.Rules = append(rep.Rules, "K-parsebits: strconv.ParseFloat is called with bit size 32 only where the enclosing case clause is for float32 alone")
+	runSynRule(prog, rep, "K-parsebits", rels, matchParseFloatBits, fixtureParseFloatBits, 1, 2)
+}
